@@ -301,6 +301,27 @@ PROPS = {
         'technique': 'Coq refinement of the cache layer to a cache-free specification over all histories + exhaustive-schedule invariant for concurrent opens + three-way differential of real Systems',
         'assumptions': ['sequential request histories for the transparency clause', 'a finite TTL requires a persistent cron service (NewSystem enforces it; the harness supplies a recording one)'],
     },
+    'C13': {
+        'props_file': 'props/C13.v',
+        'domains': [{'name': 'loc-fuzz', 'quick': 300, 'thorough': 20000, 'thorough_shards': 10}],
+        'spec_ops': None,
+        'corr': 'corr.loc (CorrLoc.check_loc) on the fuzz profile: every case runs in a child process under a time limit and a small maximum stack, journaling the index of the operation it is about to execute; '
+                'a crash, stack overflow or hang is attributed to that operation and judged as a specification failure (never excused by ambiguity); after every unusual input a canary add/get/search on the same location is compared with the model',
+        'rule': 'loc-fuzz: 300 histories per quick run; every input position (fact, rule, pattern, query, event, id, parents) receives well-formed JSON of unusual shape: wrong types in the reserved keys '
+                '(rule/when/pattern/condition/action/schedule/expires/ttl/deleteWith/id/!props/policies), variable-looking strings as data, keys and ids, empty and 40-deep containers, heterogeneous arrays, long strings, '
+                'each followed by canary traffic (add, get, search) on the same location; both state kinds; non-trivial = at least 3 distinct (op, outcome) kinds; distinct by hash of inputs',
+        'refuted': ['nonground_data_diverges_counterexample, search_over_stored_rule_diverges_counterexample (D12 reached through the API: D54)'],
+        'level_text': 'Coq theorems over the executable model (whose Panic outcomes are the unchecked assertions / nil writes / out-of-range indexes of the Go code and whose OutOfFuel outcome is unbounded recursion): '
+                      'no_panic_constructor (no operation ever panics: any input, state, fuel), core_match_total_ground (the matcher terminates within the stated fuel for EVERY pattern on ground data), parse_query_total, '
+                      'state_ops_total(_sharp), sys_step_total (all twelve Location operations through gates and ancestor walk), sys_query_total, process_event_total, history_total (every request of every history of ground requests is answered and the invariants persist), '
+                      'rejected_input_keeps_state (a rejected input leaves the location exactly as it was). Tie to the code: fuzzed histories with canaries in child processes replayed through the extracted model; crash/hang oracle.',
+        'level_note': 'PARTIAL: the theorems are about the model; that the Go code has no panic point the model lacks is checked by the crash oracle of the harness (a test), and "within bounded time" is the fuel bound of the model plus a wall-clock limit in the harness. '
+                      'Found by this check and repaired in /repo: D2/D3 (panics on {"rule":{"when":5}} inside the state lock), D53 (an accepted fact with an ill-typed rule body failed every later dispatch that reached it). '
+                      'Open finding D54: outside the ground fragment the matcher (dependency) recurses without bound; stored rules are such data, so a rule search that repeats a variable kills the process.',
+        'technique': 'Coq totality proofs (fuel sufficiency by a size measure, no-panic by case analysis, invariants over histories) + fuzzing with crash/hang/canary oracle in child processes',
+        'assumptions': ['inputs are well-formed JSON documents (the model\'s json type)', 'request payloads are ground for the history theorem (non-ground data: D12/D54)'],
+        'partial': 'absence of panic points in the Go code beyond those of the model is tested, not proved',
+    },
     'C12': {
         'props_file': 'props/C12.v',
         'domains': [{'name': 'conc-one', 'ok_is_spec': True, 'quick': 400, 'thorough': 20000, 'thorough_shards': 10, 'race': 150, 'race_thorough': 3000}],
